@@ -231,6 +231,48 @@ def r3_codec(ctx):
                   "a parameter stored in a single column always comes back as a length-1 vector: scalar-shaped parameters (shape ()) return with shape (1,) after a table / CSV round trip "
                   "(the table layout cannot tell () from (1,))", construct="single-column case of from_dataframe")
     ctx.rule("C16.R3b", "shape cases of the writer are reproduced by the reader", 1)
+    # (c) component order: the writer emits `<name>_0 .. <name>_{n-1}` in this order; the reader must take the columns of a vector
+    # in table order (or by their integer suffix) - a name sort puts `_10` before `_2`
+    from ..astq import Canon, unify
+    ctx.rule("C16.R3c", "components of a vector-valued parameter keep the writer's order", 2)
+    cr = Canon(r.node)
+    L = cr.lines(False, True)
+    b = unify(L, ["?cols = list($0.columns.values)", "for (?cols, ?c)", "?groups[?g].append(?c)", "?groups[?g] = []"]) or unify(L, ["for ($0.columns, ?c)", "?groups[?g].append(?c)", "?groups[?g] = []"]) \
+        or unify(L, ["?cols = list($0.columns)", "for (?cols, ?c)", "?groups[?g].append(?c)", "?groups[?g] = []"])
+    if b is None:
+        ctx.unknown("C16.R3c", r, r.node, "the reader no longer collects the component columns by appending them while iterating the table's columns", construct="component collection")
+    else:
+        ctx.ok("C16.R3c", r, r.node, "component columns appended in the order of the table's columns", construct="component collection")
+        gname = cr.real_name(b["groups"])
+        derived = {gname, cr.real_name(b.get("cols", "")) or gname}
+        for _ in range(2):
+            for n in ast.walk(r.node):
+                it, tg = None, None
+                if isinstance(n, (ast.For, ast.comprehension)):
+                    it, tg = n.iter, n.target
+                if it is not None and any(isinstance(x, ast.Name) and x.id in derived for x in ast.walk(it)):
+                    derived |= {x.id for x in ast.walk(tg) if isinstance(x, ast.Name)}
+                if isinstance(n, ast.Assign) and len(n.targets) == 1 and isinstance(n.targets[0], ast.Name) and any(isinstance(x, ast.Name) and x.id in derived for x in ast.walk(n.value)) \
+                        and isinstance(n.value, (ast.Subscript, ast.Name, ast.Call)) and n.targets[0].id not in (cr.real_name(b.get("c", "")) or "",):
+                    if isinstance(n.value, (ast.Subscript, ast.Name)):
+                        derived.add(n.targets[0].id)
+        bad = []
+        for n in ast.walk(r.node):
+            if not isinstance(n, ast.Call):
+                continue
+            fn_ = U(n.func)
+            recv = n.func.value if isinstance(n.func, ast.Attribute) else None
+            args = list(n.args)
+            reorders = (isinstance(n.func, ast.Attribute) and n.func.attr in ("sort", "reverse") and recv is not None and any(isinstance(x, ast.Name) and x.id in derived for x in ast.walk(recv))) \
+                or (fn_ in ("sorted", "reversed", "set", "frozenset", "random.shuffle", "shuffle", "np.sort", "np.unique") and any(isinstance(x, ast.Name) and x.id in derived for a in args for x in ast.walk(a)))
+            by_index = any(k.arg == "key" and "int(" in U(k.value) for k in n.keywords)
+            if reorders and not by_index:
+                bad.append(n)
+        for n in bad:
+            ctx.violation("C16.R3c", r, n, f"`{U(n)[:60]}` re-orders the component columns of a vector-valued parameter by something else than their integer suffix "
+                          "(a name sort puts `_10` before `_2`): the components of vectors with more than 10 entries come back permuted")
+        if not bad:
+            ctx.ok("C16.R3c", r, r.node, f"no re-ordering of the collected columns ({sorted(x for x in derived if x)})", construct="component order kept")
 
 
 def r4_tensor_json(ctx):
